@@ -2,9 +2,9 @@
    nodes.rs NodeRrsets / ZoneNode / NodeChildren::{rollback,remove_all}, ZoneApex::{read,write},
    write.rs WriteZone::{open,commit,publish_new_zone_version,drop},
    WriteNode::{update_child,update_rrset,remove_rrset,make_regular,make_cname,remove_all,check_nx_domain},
-   read.rs ReadZone::{query,walk} for the apex and its direct children,
-   nodes.rs ZoneNode::exists (a child is followed only if its name exists in the
-   reader's version).
+   WriteNode::make_zone_cut, read.rs ReadZone::{query,walk} over the whole node tree
+   (zone cuts, CNAMEs, wildcards at every level, ANY), nodes.rs ZoneNode::exists
+   (a child is followed only if it or a descendant holds data in the reader's version).
 
    Representation.  `Versioned.data : Vec<(Version, Option<T>)>` is a list whose HEAD is
    the vector's LAST element (push = cons, pop = tail, last_mut = head,
@@ -12,9 +12,9 @@
    is the derived PartialOrd over Serial, i.e. C17's serial_partial_cmp.
    HashMap<Rtype, NodeRrset> and HashMap<OwnedLabel, Arc<ZoneNode>> are association
    lists in insertion order (iteration order is canonicalised by sorting in the
-   driver and the harness).  Names: 0 = apex, 1 = the wildcard label `*`, n >= 2 a
-   direct child label.  RRsets are numbers; 0 is the empty RRset.  Rtypes are numbers
-   (5 = CNAME as emitted by walk, 6 = SOA). *)
+   driver and the harness).  Names are label paths from the apex downwards ([] = apex);
+   label 1 is the wildcard label `*`.  RRsets are numbers; 0 is the empty RRset.
+   Rtypes are numbers (1 = A, 2 = NS, 5 = CNAME, 6 = SOA, 43 = DS, 255 = ANY). *)
 From Coq Require Import NArith List Bool.
 From DV Require Import Base.Outcome C17.Model C09.Gen.
 Import ListNotations.
@@ -150,20 +150,27 @@ Definition rs_is_empty (rs : rrsets) (v : N) : bool :=
 
 (* ---------------------------------------------------------------- ZoneNode *)
 
-Inductive special := SCname (id : N) | SNx.
+(* Special::{Cut, Cname, NxDomain}; a cut is its NS RRset, an optional DS RRset
+   and an optional glue record (an A record owned by the cut name) *)
+Inductive special := SCut (ns : N) (ds glue : option N) | SCname (id : N) | SNx.
 
-Record znode := mknode {
-  n_rrsets : rrsets;
-  n_special : list (entry (option special))
-}.
+Inductive znode := mknode (rs : rrsets) (sp : list (entry (option special))) (ch : list (N * znode)).
 
-Definition empty_node : znode := mknode [] [].
+Definition n_rrsets (n : znode) : rrsets := match n with mknode rs _ _ => rs end.
+Definition n_special (n : znode) : list (entry (option special)) := match n with mknode _ sp _ => sp end.
+Definition n_children (n : znode) : list (N * znode) := match n with mknode _ _ ch => ch end.
 
-Definition n_with_special (n : znode) (v : N) : option special :=
-  match v_get (n_special n) v with Some (Some s) => Some s | _ => None end.
+Definition empty_node : znode := mknode [] [] [].
+Definition set_rrsets (n : znode) (rs : rrsets) : znode := mknode rs (n_special n) (n_children n).
+Definition set_special (n : znode) (sp : list (entry (option special))) : znode := mknode (n_rrsets n) sp (n_children n).
+Definition set_children (n : znode) (ch : list (N * znode)) : znode := mknode (n_rrsets n) (n_special n) ch.
+
+Definition sp_get (sp : list (entry (option special))) (v : N) : option special :=
+  match v_get sp v with Some (Some s) => Some s | _ => None end.
+Definition n_with_special (n : znode) (v : N) : option special := sp_get (n_special n) v.
 
 Definition n_update_special (n : znode) (v : N) (s : option special) : znode :=
-  mknode (n_rrsets n) (v_update (n_special n) v s).
+  set_special n (v_update (n_special n) v s).
 
 Definition check_nx (n : znode) (v : N) : znode :=
   if nx_marker_follows_emptiness then
@@ -176,16 +183,39 @@ Definition check_nx (n : znode) (v : N) : znode :=
 
 Definition n_make_regular (n : znode) (v : N) : znode := check_nx (n_update_special n v None) v.
 Definition n_make_cname (n : znode) (id v : N) : znode := n_update_special n v (Some (SCname id)).
+Definition n_make_cut (n : znode) (ns : N) (ds glue : option N) (v : N) : znode :=
+  n_update_special n v (Some (SCut ns ds glue)).
 Definition n_update_rrset (n : znode) (t rr v : N) : znode :=
-  check_nx (mknode (rs_update (n_rrsets n) t rr v) (n_special n)) v.
+  check_nx (set_rrsets n (rs_update (n_rrsets n) t rr v)) v.
 Definition n_remove_rrset (n : znode) (t v : N) : znode :=
-  check_nx (mknode (rs_remove_rtype (n_rrsets n) t v) (n_special n)) v.
-Definition n_rollback (n : znode) (v : N) : znode :=
-  mknode (if node_rollback_rrsets then rs_rollback (n_rrsets n) v else n_rrsets n)
-         (if node_rollback_special then v_rollback (n_special n) v else n_special n).
-Definition n_remove_all (n : znode) (v : N) : znode :=
-  mknode (if node_remove_all_rrsets then rs_remove_all (n_rrsets n) v else n_rrsets n)
-         (if node_remove_all_special then v_remove (n_special n) v else n_special n).
+  check_nx (set_rrsets n (rs_remove_rtype (n_rrsets n) t v)) v.
+
+(* ZoneNode::rollback / remove_all: own cells, then every child *)
+Fixpoint n_rollback (n : znode) (v : N) : znode :=
+  match n with
+  | mknode rs sp ch =>
+      mknode (if node_rollback_rrsets then rs_rollback rs v else rs)
+             (if node_rollback_special then v_rollback sp v else sp)
+             (if node_rollback_children then map (fun p => (fst p, n_rollback (snd p) v)) ch else ch)
+  end.
+Fixpoint n_remove_all (n : znode) (v : N) : znode :=
+  match n with
+  | mknode rs sp ch =>
+      mknode (if node_remove_all_rrsets then rs_remove_all rs v else rs)
+             (if node_remove_all_special then v_remove sp v else sp)
+             (if node_remove_all_children then map (fun p => (fst p, n_remove_all (snd p) v)) ch else ch)
+  end.
+
+(* ZoneNode::exists(version): the node owns RRsets, a zone cut or a CNAME in that
+   version, or some child exists (an empty non-terminal) *)
+Definition own_data (rs : rrsets) (sp : list (entry (option special))) (v : N) : bool :=
+  (if exists_counts_rrsets then negb (rs_is_empty rs v) else false) ||
+  (if exists_counts_cname then match sp_get sp v with Some (SCname _) | Some (SCut _ _ _) => true | _ => false end else false).
+Fixpoint n_exists (n : znode) (v : N) : bool :=
+  match n with
+  | mknode rs sp ch =>
+      own_data rs sp v || (if exists_counts_children then existsb (fun p => n_exists (snd p) v) ch else false)
+  end.
 
 (* ---------------------------------------------------------------- zone, writer *)
 
@@ -207,10 +237,24 @@ Definition set_apex (s : zstate) (rs : rrsets) : zstate :=
 Definition set_writer (s : zstate) (w : option writer) : zstate :=
   mkz (z_cur s) (z_apex s) (z_nodes s) w (z_handle s).
 
-(* WriteNode::update_child(label) followed by `f` on the child:
-   with_or_default creates the node; a created node gets make_regular *)
-Definition child_do (ns : list (N * znode)) (name v : N) (f : znode -> znode) : list (N * znode) :=
-  al_upd name f (if update_child_creates_node then n_make_regular empty_node v else empty_node) ns.
+(* update_child along the path, then `f` on the last node.  Every missing node
+   is created as `fresh`: the writer passes a node that already went through
+   make_regular at its version, the ZoneBuilder an empty one *)
+Fixpoint path_do (ns : list (N * znode)) (p : list N) (fresh : znode) (f : znode -> znode) : list (N * znode) :=
+  match p with
+  | [] => ns
+  | l :: rest =>
+      al_upd l (fun n => match rest with
+                         | [] => f n
+                         | _ => set_children n (path_do (n_children n) rest fresh f)
+                         end) fresh ns
+  end.
+
+Definition fresh_node (v : N) : znode :=
+  if update_child_creates_node then n_make_regular empty_node v else empty_node.
+
+Definition child_do (ns : list (N * znode)) (p : list N) (v : N) (f : znode -> znode) : list (N * znode) :=
+  path_do ns p (fresh_node v) f.
 
 Definition node_exists (ns : list (N * znode)) (name : N) : bool :=
   match al_get name ns with Some _ => true | None => false end.
@@ -229,46 +273,54 @@ Definition z_remove_all (s : zstate) (v : N) : zstate :=
 
 Inductive event :=
 | EAcquire (r : N)                 (* zone.read() into reader slot r *)
-| EQuery (r name t : N)            (* reader r: query(name, t) *)
+| EQuery (r : N) (name : list N) (t : N)   (* reader r: query(name, t) *)
 | EWalk (r : N)                    (* reader r: walk *)
 | ERelease (r : N)                 (* drop reader r *)
 | EWAcquire                        (* zone.write().await *)
 | EWOpen                           (* writer.open(false) -> root node *)
-| EUpdate (name t rr : N)          (* [root.update_child(name)].update_rrset(rr) *)
-| ERemove (name t : N)             (* [root.update_child(name)].remove_rrset(t) *)
-| ETouch (name : N)                (* root.update_child(name) only *)
+| EUpdate (name : list N) (t rr : N)   (* root.update_child(..)*.update_rrset(rr) *)
+| ERemove (name : list N) (t : N)      (* root.update_child(..)*.remove_rrset(t) *)
+| ETouch (name : list N)               (* root.update_child(..)* only *)
 | ERemoveAll                       (* root.remove_all() *)
-| ERemoveAllAt (name : N)          (* root.update_child(name).remove_all() *)
-| ECname (name id : N)             (* root.update_child(name).make_cname(id) *)
-| ERegular (name : N)              (* root.update_child(name).make_regular() *)
+| ERemoveAllAt (name : list N)         (* root.update_child(..)*.remove_all() *)
+| ECname (name : list N) (id : N)      (* root.update_child(..)*.make_cname(id) *)
+| ECut (name : list N) (ns : N) (ds glue : option N)   (* ...make_zone_cut *)
+| ERegular (name : list N)             (* root.update_child(..)*.make_regular() *)
 | ECommit                          (* writer.commit(false); the root handle is kept aside *)
 | EDrop                            (* drop(writer); the root handle is kept aside *)
 | EStale (e : event).              (* data operation e through the handle kept aside *)
+
+Definition at_node (s : zstate) (v : N) (name : list N) (f : znode -> znode) : zstate :=
+  match name with
+  | [] => s
+  | _ => set_nodes s (child_do (z_nodes s) name v f)
+  end.
 
 (* a data operation of the open writer at version v *)
 Definition data_op (s : zstate) (v : N) (e : event) : zstate :=
   match e with
   | EUpdate name t rr =>
-      if name =? 0 then set_apex s (rs_update (z_apex s) t rr v)
-      else set_nodes s (child_do (z_nodes s) name v (fun n => n_update_rrset n t rr v))
+      match name with
+      | [] => set_apex s (rs_update (z_apex s) t rr v)
+      | _ => at_node s v name (fun n => n_update_rrset n t rr v)
+      end
   | ERemove name t =>
-      if name =? 0 then set_apex s (rs_remove_rtype (z_apex s) t v)
-      else set_nodes s (child_do (z_nodes s) name v (fun n => n_remove_rrset n t v))
-  | ETouch name =>
-      if name =? 0 then s else set_nodes s (child_do (z_nodes s) name v (fun n => n))
+      match name with
+      | [] => set_apex s (rs_remove_rtype (z_apex s) t v)
+      | _ => at_node s v name (fun n => n_remove_rrset n t v)
+      end
+  | ETouch name => at_node s v name (fun n => n)
   | ERemoveAll => z_remove_all s v
-  | ERemoveAllAt name =>
-      if name =? 0 then s else set_nodes s (child_do (z_nodes s) name v (fun n => n_remove_all n v))
-  | ECname name id =>
-      if name =? 0 then s else set_nodes s (child_do (z_nodes s) name v (fun n => n_make_cname n id v))
-  | ERegular name =>
-      if name =? 0 then s else set_nodes s (child_do (z_nodes s) name v (fun n => n_make_regular n v))
+  | ERemoveAllAt name => at_node s v name (fun n => n_remove_all n v)
+  | ECname name id => at_node s v name (fun n => n_make_cname n id v)
+  | ECut name ns ds glue => at_node s v name (fun n => n_make_cut n ns ds glue v)
+  | ERegular name => at_node s v name (fun n => n_make_regular n v)
   | _ => s
   end.
 
 Definition is_data (e : event) : bool :=
   match e with
-  | EUpdate _ _ _ | ERemove _ _ | ETouch _ | ERemoveAll | ERemoveAllAt _ | ECname _ _ | ERegular _ => true
+  | EUpdate _ _ _ | ERemove _ _ | ETouch _ | ERemoveAll | ERemoveAllAt _ | ECname _ _ | ECut _ _ _ _ | ERegular _ => true
   | _ => false
   end.
 
@@ -330,22 +382,24 @@ Inductive answer :=
 | ANx (soa : option N)             (* NXDOMAIN, SOA of the reader's version in authority *)
 | ANoData (soa : option N)         (* NOERROR, empty answer *)
 | AData (rr : N)
-| ACname (id : N).
+| AAny                             (* ANY: some RRset of the version *)
+| ACname (id : N)
+| ARefer (ns : N) (ds glue : option N).   (* referral at a zone cut *)
 
-(* ZoneNode::exists(version): the node owns RRsets or a CNAME in that version
-   (or a name below it exists -- the model has no grandchildren) *)
-Definition n_exists (n : znode) (v : N) : bool :=
-  (if exists_counts_rrsets then negb (rs_is_empty (n_rrsets n) v) else false) ||
-  (if exists_counts_cname then match n_with_special n v with Some (SCname _) => true | _ => false end else false).
+(* query_rrsets *)
+Definition rrsets_answer (rs : rrsets) (v t : N) (soa : option N) : answer :=
+  if t =? 255 then (if rs_is_empty rs v then ANoData soa else AAny)
+  else match rs_get rs t v with Some rr => AData rr | None => ANoData soa end.
 
 (* query_node_here_but_not_below: the NxDomain marker is treated like None *)
 Definition node_here (n : znode) (v t : N) (soa : option N) : answer :=
   match n_with_special n v with
+  | Some (SCut ns ds glue) =>
+      if t =? 43 then match ds with Some d => AData d | None => ANoData soa end
+      else ARefer ns ds glue
   | Some (SCname id) => ACname id
-  | Some SNx => if nx_marker_answers_like_regular
-                then match rs_get (n_rrsets n) t v with Some rr => AData rr | None => ANoData soa end
-                else ANx soa
-  | None => match rs_get (n_rrsets n) t v with Some rr => AData rr | None => ANoData soa end
+  | Some SNx => if nx_marker_answers_like_regular then rrsets_answer (n_rrsets n) v t soa else ANx soa
+  | None => rrsets_answer (n_rrsets n) v t soa
   end.
 
 (* NodeChildren::with(label) filtered by exists(version) *)
@@ -355,41 +409,78 @@ Definition child_at (ns : list (N * znode)) (name v : N) : option znode :=
   | None => None
   end.
 
-Definition query (s : zstate) (v name t : N) : answer :=
-  let soa := rs_get (z_apex s) 6 v in
-  if name =? 0 then
-    match rs_get (z_apex s) t v with Some rr => AData rr | None => ANoData soa end
-  else
-    match child_at (z_nodes s) name v with
-    | Some n => node_here n v t soa
-    | None => match child_at (z_nodes s) 1 v with
-              | Some n => node_here n v t soa
-              | None => ANx soa
-              end
-    end.
+(* query_children / query_node / query_node_here_and_below along the name *)
+Fixpoint q_children (ns : list (N * znode)) (p : list N) (v t : N) (soa : option N) : answer :=
+  match p with
+  | [] => ANx soa
+  | l :: rest =>
+      match child_at ns l v with
+      | Some n =>
+          match rest with
+          | [] => node_here n v t soa
+          | _ => match n_with_special n v with
+                 | Some (SCut ns' ds glue) => ARefer ns' ds glue
+                 | _ => q_children (n_children n) rest v t soa
+                 end
+          end
+      | None => match child_at ns 1 v with
+                | Some n => node_here n v t soa
+                | None => ANx soa
+                end
+      end
+  end.
 
-Definition walk_rrsets (name : N) (rs : rrsets) (v : N) : list (N * N * N) :=
+Definition query (s : zstate) (v : N) (name : list N) (t : N) : answer :=
+  let soa := rs_get (z_apex s) 6 v in
+  match name with
+  | [] => rrsets_answer (z_apex s) v t soa
+  | _ => q_children (z_nodes s) name v t soa
+  end.
+
+Definition walk_rrsets {A} (name : A) (rs : rrsets) (v : N) : list (A * N * N) :=
   flat_map (fun p => match v_get (snd p) v with Some rr => [(name, fst p, rr)] | None => [] end) rs.
 
-Definition walk_node (p : N * znode) (v : N) : list (N * N * N) :=
-  walk_rrsets (fst p) (n_rrsets (snd p)) v ++
-  match n_with_special (snd p) v with Some (SCname id) => [(fst p, 5, id)] | _ => [] end.
+Definition opt_item {A} (name : A) (t : N) (x : option N) : list (A * N * N) :=
+  match x with Some id => [(name, t, id)] | None => [] end.
 
-Definition walk (s : zstate) (v : N) : list (N * N * N) :=
-  walk_rrsets 0 (z_apex s) v ++ flat_map (fun p => walk_node p v) (z_nodes s).
+(* walk of a node: its RRsets, then by special: a cut emits NS, DS, glue and ends
+   the descent; a CNAME is emitted and the children are walked; otherwise the children *)
+Fixpoint walk_node (path : list N) (n : znode) (v : N) : list (list N * N * N) :=
+  match n with
+  | mknode rs sp ch =>
+      walk_rrsets path rs v ++
+      match sp_get sp v with
+      | Some (SCut ns ds glue) => [(path, 2, ns)] ++ opt_item path 43 ds ++ opt_item path 1 glue
+      | Some (SCname id) => [(path, 5, id)] ++ flat_map (fun p => walk_node (path ++ [fst p]) (snd p) v) ch
+      | _ => flat_map (fun p => walk_node (path ++ [fst p]) (snd p) v) ch
+      end
+  end.
+
+Definition walk (s : zstate) (v : N) : list (list N * N * N) :=
+  walk_rrsets [] (z_apex s) v ++ flat_map (fun p => walk_node [fst p] (snd p) v) (z_nodes s).
 
 (* ---------------------------------------------------------------- ZoneBuilder *)
 
-Inductive init := IRrset (name t rr : N) | ICname (name id : N).
+Inductive init := IRrset (name : list N) (t rr : N) | ICname (name : list N) (id : N)
+                | ICut (name : list N) (ns : N) (ds glue : option N).
 
 Definition build_one (s : zstate) (i : init) : zstate :=
   match i with
   | IRrset name t rr =>
-      if name =? 0 then set_apex s (rs_update (z_apex s) t rr 0)
-      else set_nodes s (al_upd name (fun n => mknode (rs_update (n_rrsets n) t rr 0) (n_special n)) empty_node (z_nodes s))
+      match name with
+      | [] => set_apex s (rs_update (z_apex s) t rr 0)
+      | _ => set_nodes s (path_do (z_nodes s) name empty_node (fun n => set_rrsets n (rs_update (n_rrsets n) t rr 0)))
+      end
   | ICname name id =>
-      if name =? 0 then s
-      else set_nodes s (al_upd name (fun n => n_update_special n 0 (Some (SCname id))) empty_node (z_nodes s))
+      match name with
+      | [] => s
+      | _ => set_nodes s (path_do (z_nodes s) name empty_node (fun n => n_update_special n 0 (Some (SCname id))))
+      end
+  | ICut name ns ds glue =>
+      match name with
+      | [] => s
+      | _ => set_nodes s (path_do (z_nodes s) name empty_node (fun n => n_update_special n 0 (Some (SCut ns ds glue))))
+      end
   end.
 
 Definition build (is : list init) : zstate := fold_left build_one is (mkz 0 [] [] None None).
@@ -397,7 +488,7 @@ Definition build (is : list init) : zstate := fold_left build_one is (mkz 0 [] [
 (* ---------------------------------------------------------------- trace runner (driver) *)
 
 Inductive obs :=
-| OAnswer (a : answer) | OWalk (l : list (N * N * N)) | ONoReader
+| OAnswer (a : answer) | OWalk (l : list (list N * N * N)) | ONoReader
 | OGranted | OPending
 | OStaleDone | OStaleRejected | OStaleNoHandle.
 
